@@ -333,6 +333,8 @@ CmpOk(N, P, x) ==
     LET top == CmpTarget(N, x) IN
     /\ top # 0
     /\ OnlyAddsDecls(N, P, top)
+    \* what it adds can be written down: not the xml prefix, not the XML namespace under another name, not xmlns:p=""
+    /\ \A i \in (Len(N) + 1)..Len(P) : P[i].ln \notin {"xml", "xmlns"} /\ P[i].u \notin {"", XmlNs}
     /\ DependedBindingsKept(N, P, top)
     /\ Usable(P, top)
 
